@@ -14,7 +14,12 @@ PROP = {'gen': [],
  'props_module': 'Props.C12',
  'corr_check': 'SNT.Corr.C12Corr.c12_check (reference sixel interpreter run on the bytes of SixelImageHandler::draw; encoder model '
                'Image/Sixel.v + Image/SixelDraw.v compared byte for byte under the observed strip order)',
- 'level_text': 'Coq theorems over an executable model of the sixel encoder and a reference sixel interpreter.',
+ 'level_text': 'Coq theorems: for every palette, index image and every hash-map iteration order the encoder model output is one '
+               'well-formed sixel sequence that a reference interpreter (written from the DEC description) decodes to a picture of '
+               'the declared size with every pixel painted in its register colour and nothing outside; draw on any image of height '
+               '>= 6 yields <= 256 registers; with <= 256 colours at 0..100 resolution the picture equals the source at that '
+               'resolution; repeated draws return the cached bytes. Scaling tables and constants are regenerated from the source '
+               'each run; the interpreter is run on the implementation bytes in the correspondence check.',
  'level_note': 'Trusted: Coq kernel + vm_compute; translate/sixel_tables.py (scaling tables and constants re-extracted from the source each '
                'run and validated against the real code exhaustively); hand-written models validated by the correspondence run; '
                'rasterize blend_over and the 64-bit content hash are oracles. No axioms.',
